@@ -403,7 +403,17 @@ let c19 s b =
     for j = 0 to ns - 1 do
       let ((x, y), z) = seed (nat_of_int gi) (nat_of_int j) in
       Printf.bprintf b " %d%d%d" (if x then 1 else 0) (if y then 1 else 0) (if z then 1 else 0)
-    done) gis
+    done) gis;
+  (* the exit test at the starting point: when it holds, solve returns the start unchanged (theorem
+     C19_exit_test_at_start_is_fixpoint); when it does not, the model makes no prediction *)
+  if s.pos < Array.length s.toks && s.toks.(s.pos) = "D" then begin
+    s.pos <- s.pos + 1;
+    let neq = next s in let nf = next s in
+    let rows = times neq (fun () -> times nf (fun () -> next_f32 s)) in
+    let res = times neq (fun () -> next_f32 s) in
+    let cur = times nf (fun () -> next_f32 s) in
+    Printf.bprintf b " | stay %s" (if done32 res rows cur then "1" else "?")
+  end
 
 
 
